@@ -1123,8 +1123,10 @@ where
     ) -> Result<Vec<AssignedBit<F>>, Error> {
         // Add one to account for the extra +1 in the unique-zero representation.
         let mut x = self.add_constant(layouter, x, K::ONE)?;
-        if enforce_canonical {
-            x = self.make_canonical(layouter, &x)?;
+        x = if enforce_canonical {
+            self.make_canonical(layouter, &x)?
+        } else {
+            self.normalize(layouter, &x)?
         };
         let mut bits = vec![];
         x.limb_values
